@@ -2461,8 +2461,9 @@ func Normalise(p *Prog, o LoadOpts, protected map[string]bool) (*Prog, []string)
 				cs = append(cs, k)
 			}
 			sort.Strings(cs)
-			p2.Normalised = fmt.Sprintf("%d helper call sites expanded (this round: %d in %d functions); helpers: %s", p2.nExpanded, nUsed, len(callers), strings.Join(cs, ", "))
-			return p2, append(notes, "normalisation: "+p2.Normalised)
+			p2.Normalised = fmt.Sprintf("helper-expanded view: %d call sites of %d helpers expanded (rules see the same shape whether a sequence is written inline or extracted)", p2.nExpanded, len(cs))
+			p2.ExpandedList = cs
+			return p2, append(notes, fmt.Sprintf("normalisation round: %d helper call sites expanded in %d functions (cumulative %d sites, %d helpers)", nUsed, len(callers), p2.nExpanded, len(cs)))
 		}
 		// disable the sites the errors point into
 		disabled := 0
